@@ -102,7 +102,7 @@ class StatsLogAdapter(logging.LoggerAdapter):
             return
         peers = []
 
-        for p in self.extra["node"].peers.values():
+        for p in list(self.extra["node"].peers.values()):
             peer = {
                 "node_name": p.node_name, "connection_id": None,
                 "host_identity": None, "origin_host": None,
@@ -130,7 +130,7 @@ class StatsLogAdapter(logging.LoggerAdapter):
             return
         peers = []
 
-        for p in self.extra["node"].peers.values():
+        for p in list(self.extra["node"].peers.values()):
             stats: PeerStats = p.statistics
             peers.append({
                 "node_name": p.node_name,
@@ -1240,7 +1240,7 @@ class Node:
         req_counters = [0, 0, 0]
         sent_res_code_counters = {}
 
-        for peer in self.peers.values():
+        for peer in list(self.peers.values()):
             stats = peer.statistics
             avg_res_total_time += sum(stats.processed_req_time_total)
             req_per_sec_total_time += math.ceil(sum(stats.processed_req_time_total))
